@@ -11,6 +11,9 @@ import (
 	"github.com/canopy-network/canopy/lib"
 	"github.com/canopy-network/canopy/lib/crypto"
 	"github.com/canopy-network/canopy/store"
+	"github.com/ethereum/go-ethereum/common"
+	ethTypes "github.com/ethereum/go-ethereum/core/types"
+	ethCrypto "github.com/ethereum/go-ethereum/crypto"
 	"google.golang.org/protobuf/encoding/protowire"
 	"google.golang.org/protobuf/proto"
 )
@@ -233,24 +236,61 @@ func replayMode(seed int64, runs int, out *json.Encoder) error {
 			}
 			_ = out.Encode(line)
 		}
+		// offerPair: a transaction and another encoding of it in the mempool of ONE block (nothing is indexed yet when the
+		// second one is checked)
+		offerPair := func(content int, variant string, orig, alt []byte, amt uint64) {
+			before, h := bal(), n.height()
+			l1 := ReplayLine{Kind: "offer", Run: r, Content: content, Variant: "original-same-block", Legit: true, Height: h}
+			l2 := ReplayLine{Kind: "offer", Run: r, Content: content, Variant: variant + "-same-block", Height: h}
+			l1.Mempool = n.c.Mempool.HandleTransactions(orig) == nil
+			l2.Mempool = n.c.Mempool.HandleTransactions(alt) == nil
+			p, e := n.propose()
+			if e == nil {
+				blk := new(lib.Block)
+				_ = lib.Unmarshal(p.block, blk)
+				for _, t := range blk.Transactions {
+					l1.Included = l1.Included || string(t) == string(orig)
+					l2.Included = l2.Included || string(t) == string(alt)
+				}
+				var m *lib.BlockMessage
+				if m, e = n.certify(p, []int{0, 1, 2, 3}, nil); e == nil {
+					e = n.commit(m)
+				}
+			}
+			if e != nil {
+				l1.Err = e.Error()
+			}
+			d := bal() - before
+			l1.Executed, l2.Executed = d >= amt, d == 2*amt
+			if d != 0 && d != amt && d != 2*amt {
+				l1.Err += fmt.Sprintf(" recipient moved by %d (amount %d)", d, amt)
+			}
+			_ = out.Encode(l1)
+			_ = out.Encode(l2)
+		}
 		// two empty blocks first (replay protection only starts at height 2)
 		offer(-1, "none", false, nil, 0)
 		offer(-1, "none", false, nil, 0)
 		content := 0
+		memo := ""
 		mk := func(net, chain, created uint64, amt uint64) []byte {
-			tx, e := fsm.NewSendTransaction(n.accKeys[0], recip, amt, net, chain, 100, created, "")
+			tx, e := fsm.NewSendTransaction(n.accKeys[0], recip, amt, net, chain, 100, created, memo)
 			if e != nil {
 				return nil
 			}
 			bz, _ := lib.Marshal(tx)
 			return bz
 		}
-		for k := 0; k < 3; k++ {
+		for k := 0; k < 4; k++ {
 			content++
 			amt := uint64(1000 + 17*content + rng.Intn(5))
 			created := n.height()
 			if k == 1 {
 				created = n.height() + 50 // stamped in the future, inside the window
+			}
+			memo = ""
+			if k == 3 {
+				memo = "RLP" // for a key that is not an Ethereum key this is an ordinary memo
 			}
 			orig := mk(1, 1, created, amt)
 			offer(content, "original", true, orig, amt)
@@ -307,6 +347,61 @@ func replayMode(seed int64, runs int, out *json.Encoder) error {
 				}
 			}
 		}
+		// transactions signed with an Ethereum wallet (raw RLP inside the Signature field), legacy wrapper and RLP.V2
+		if priv, e := ethCrypto.ToECDSA(seedKey(0x53)); e == nil {
+			from := crypto.NewAddressFromBytes(ethCrypto.PubkeyToAddress(priv.PublicKey).Bytes())
+			if tx, e := fsm.NewSendTransaction(n.valKeys[3], from, 90000, 1, 1, 100, n.height(), "eth"); e == nil {
+				bz, _ := lib.Marshal(tx)
+				offer(-1, "none", false, bz, 0)
+			}
+			to := common.BytesToAddress(recip.Bytes())
+			for _, v2 := range []bool{false, true} {
+				content++
+				amt := uint64(1500 + 13*content + rng.Intn(5))
+				var wrapped *lib.Transaction
+				if !v2 {
+					chainID := new(big.Int).SetUint64(fsm.CanopyIdsToEVMChainId(1, 1))
+					etx := ethTypes.NewTransaction(n.height(), to, fsm.UpscaleTo18Decimals(amt), 21000, big.NewInt(1_000_000_000_000), nil)
+					if signed, e := ethTypes.SignTx(etx, ethTypes.NewEIP155Signer(chainID), priv); e == nil {
+						raw, _ := signed.MarshalBinary()
+						wrapped, _ = fsm.RLPToCanopyTransaction(raw)
+					}
+				} else if id, ok := fsm.CanopyIdsToEVMChainIdV2(1, 1); ok {
+					chainID := new(big.Int).SetUint64(id)
+					if signed, e := ethTypes.SignNewTx(priv, ethTypes.LatestSignerForChainID(chainID), &ethTypes.DynamicFeeTx{ChainID: chainID, Nonce: 0,
+						GasTipCap: big.NewInt(1e9), GasFeeCap: big.NewInt(1_000_000_000_000), Gas: 21000, To: &to, Value: fsm.UpscaleTo18Decimals(amt)}); e == nil {
+						raw, _ := signed.MarshalBinary()
+						wrapped, _ = fsm.RLPToCanopyTransactionV2(raw)
+					}
+				}
+				if wrapped == nil {
+					continue
+				}
+				orig, _ := lib.Marshal(wrapped)
+				kind := map[bool]string{false: "rlp", true: "rlp-v2"}[v2]
+				if !v2 && r%2 == 1 { // both encodings in one block
+					offerPair(content, "fields-reversed", orig, variants(orig)["fields-reversed"], amt)
+					continue
+				}
+				offer(content, "original-"+kind, true, orig, amt)
+				vs := sigVariants(orig, "ethsecp256k1")
+				for name, bz := range variants(orig) {
+					vs[name] = bz
+				}
+				delete(vs, "signature-high-s") // the Signature field holds the raw Ethereum transaction here, not (r, s)
+				delete(vs, "signature-with-recovery-id")
+				var names []string
+				for name := range vs {
+					names = append(names, name)
+				}
+				sort.Strings(names)
+				for _, name := range names {
+					if vs[name] != nil {
+						offer(content, name, false, vs[name], amt)
+					}
+				}
+			}
+		}
 		// a 2-of-3 multisig account: what a third party can derive from an included transaction without any key
 		{
 			ms := newMulti()
@@ -357,11 +452,34 @@ func replayMode(seed int64, runs int, out *json.Encoder) error {
 				}
 			}
 		}
-		// content signed for another chain / another network, and outside the creation-height window: never executes
+		memo = ""
+		for _, mm := range []string{"", "RLP"} {
+			memo = mm
+			content++
+			amt := uint64(1000 + 17*content)
+			orig := mk(1, 1, n.height(), amt)
+			offerPair(content, "fields-reversed", orig, variants(orig)["fields-reversed"], amt)
+		}
+		memo = ""
+		// content signed for another chain / another network, and outside the creation-height window: never executes,
+		// also not when somebody rewrites the chain / network field of the signed transaction to this chain's
+		rewrite := func(bz []byte, f func(t *lib.Transaction)) []byte {
+			t := new(lib.Transaction)
+			if lib.Unmarshal(bz, t) != nil {
+				return nil
+			}
+			f(t)
+			out, _ := lib.Marshal(t)
+			return out
+		}
 		content++
-		offer(content, "other-chain", false, mk(1, 2, n.height(), 2001), 2001)
+		other := mk(1, 2, n.height(), 2001)
+		offer(content, "other-chain", false, other, 2001)
+		offer(content, "chain-id-rewritten", false, rewrite(other, func(t *lib.Transaction) { t.ChainId = 1 }), 2001)
 		content++
-		offer(content, "other-network", false, mk(2, 1, n.height(), 2002), 2002)
+		other = mk(2, 1, n.height(), 2002)
+		offer(content, "other-network", false, other, 2002)
+		offer(content, "network-id-rewritten", false, rewrite(other, func(t *lib.Transaction) { t.NetworkId = 1 }), 2002)
 		content++
 		offer(content, "created-beyond-window", false, mk(1, 1, n.height()+fsm.BlockAcceptanceRange+5, 2003), 2003)
 		n.close()
